@@ -3,6 +3,7 @@
 import os, sys, random, itertools
 sys.path.insert(0, os.path.dirname(os.path.abspath(__file__)))
 from common import *
+import c04
 
 ID = 'C05'
 PKG = 'dependency'
@@ -18,7 +19,7 @@ META = dict(
                        'eatWhitespace', 'ParseArch', 'parseArchInto', '(*Arch).UnmarshalControl', '(*Dependency).UnmarshalControl',
                        'all String()/MarshalControl methods in dependency/string.go'],
     stubs=['strings.SplitN / strings.Join (position case split)', 'fmt.Errorf / errors.New (opaque non-nil error)', 'string(byte) via UTF-8 encoding case split'],
-    bounds={'quick': 'dependency strings: every byte string (all 256 values) of length <= 4; architecture names: every ASCII string of length <= 6',
+    bounds={'quick': 'dependency strings: every byte string (all 256 values) of length <= 4, plus every single-alternative C04 shape in the conventional layout with symbolic leaves, with each leaf kind in turn drawn from bytes >= 0x80, and with each special architecture name (any, all, linux-any, any-amd64, gnu-linux-any, ...) as qualifier and list entry; architecture names: every ASCII string of length <= 6 and every 1-3 part name over {any, all, gnu, linux, <symbolic>}',
             'thorough': 'dependency strings: length <= 6; architecture names: length <= 9'},
     outside_claim=['longer inputs'],
     assumptions=['structural equality as in harness eqDependency: names, arch qualifier, version relation, architecture set with negation flag, stage sets, substvar flag'])
@@ -40,10 +41,61 @@ def jobs(tier):
     for n in range(b['A'] + 1):
         js.append(dict(name='arch_%d' % n, kind='arch', n=n))
     js.sort(key=lambda j: -j['n'])
+    nt = len(tmpl_cases(tier))
+    js += [dict(name='tmpl_%d' % i, kind='tmpl', lo=i, hi=min(i + 60, nt), n=0) for i in range(0, nt, 60)]
+    js.append(dict(name='archnames', kind='archnames', n=0))
     return js
 
 
+SPECIAL_ARCHS = [b'any', b'all', b'linux-any', b'any-amd64', b'gnu-linux-any', b'gnu-any-any', b'musl-linux-amd64', b'kfreebsd-amd64', b'gnu-linux-all', b'any-any-any', b'amd64']
+
+
+def tmpl_cases(tier):
+    """grammar-derived inputs: the C04 single-alternative shapes in the conventional layout with (i) ordinary leaves,
+    (ii) each leaf kind in turn drawn from bytes >= 0x80, (iii) every special architecture name as qualifier and list entry"""
+    cases = []
+    specs = c04.single_specs()
+    for spec in specs:
+        cases.append(dict(spec=spec, hi=None, L=1))
+        kinds = []
+        if spec['kind'] == 'subst':
+            kinds = ['subst']
+        else:
+            kinds = ['name'] + (['qual'] if spec.get('qual') == 'sym' else []) + (['ver'] if 'ver' in spec['order'] else []) + \
+                    (['arch'] if 'arch' in spec['order'] and 'sym' in spec.get('archs', ()) else []) + (['prof'] if any(o[0] == 'p' for o in spec['order']) else [])
+        for k in kinds:
+            cases.append(dict(spec=spec, hi=k, L=2 if tier == 'thorough' else 1))
+    base = dict(kind='pkg', qual='sym', order=['arch'], op='e', profs=[], archs=['sym'], neg=False)
+    for a in SPECIAL_ARCHS:
+        for neg in (False, True):
+            cases.append(dict(spec=dict(base, qual=a, archs=[a, 'sym'], neg=neg), hi=None, L=1))
+    return cases
+
+
 def run_job(env, job):
+    if job['kind'] == 'tmpl':
+        rs = []
+        for case in tmpl_cases(env.tier)[job['lo']:job['hi']]:
+            sym = c04.Sym()
+            alt = c04.mk_alt(sym, case['spec'], case['L'], hi=case['hi'])
+            text, dump, _ = c04.render_dep([[alt]], sym, 'conv')
+            rs.append(run_harness(env, PKG, 'VerifC05Dep', [Str(text)], sym.assume, unwind=len(text) + 24,
+                                  sample=dict(template=str({k: v for k, v in case['spec'].items() if k in ('kind', 'qual', 'order', 'archs', 'neg')}), high_bytes_in=case['hi'])))
+        return merge_results(rs)
+    if job['kind'] == 'archnames':
+        rs = []
+        comps = [b'any', b'all', b'gnu', b'linux', None]
+        for k in (1, 2, 3):
+            for combo in itertools.product(comps, repeat=k):
+                sym = c04.Sym()
+                parts = []
+                for i, c in enumerate(combo):
+                    if i:
+                        parts.append((45,))
+                    parts.append(tuple(c) if c is not None else sym.leaf(1, c04.LOW, c04.LOW))
+                name = Str(sum(parts, ()))
+                rs.append(run_harness(env, PKG, 'VerifC05Arch', [name], sym.assume, unwind=64, sample='architecture name ' + '-'.join(c.decode() if c else '<x>' for c in combo)))
+        return merge_results(rs)
     n = job['n']
     s = symstr('s', n)
     if job['kind'] == 'dep':
